@@ -14,7 +14,7 @@
                        of tree t, and q's position relative to that window.
      entry_ok t (id,r) r is non-empty, id names a window of t, and r lies within that window. *)
 From Coq Require Import ZArith List Bool.
-From Tickit Require Import RectDefs WinRectSet WinDefs WinSpec WinHist WinExposeProofs WinFlushProofs WinLogDisjoint WinC02Extra.
+From Tickit Require Import RectDefs WinRectSet WinDefs WinSpec WinHist WinExposeProofs WinFlushProofs WinLogDisjoint WinRectSetProofs WinC02Extra WinC02Exact WinC02Disjoint.
 Import ListNotations.
 Local Open Scope Z_scope.
 
@@ -58,24 +58,80 @@ Theorem C02_refuted_27 : exists cfg hnd st tm,
 Proof. exact refuted_27. Qed.
 Print Assumptions C02_refuted_27.
 
-(* FULL STATEMENT of the last clause of the property: the rectangles handed to one window
-   during one flush never overlap.
-     forall cfg hnd st tm st' tm' lg, win_flush cfg hnd st tm = (st', tm', lg) ->
-       forall i j, i <> j -> nth_error lg i = Some (id, r1) -> nth_error lg j = Some (id, r2) ->
-         disjoint2 r1 r2
-   Proved below under two explicit hypotheses: window ids are unique, and the damage
-   rectangles of the flush are pairwise disjoint.  The second is the invariant of the
-   rectangle set (property C05: C05_add / C05_subtract keep the members pairwise without a
-   common cell); it is proved there for the C05 model of rectset.c and is NOT re-proved for
-   the transliteration WinRectSet.v used here -- that link is by correspondence testing. *)
-Theorem C02_rects_disjoint_partial : forall tree rects,
+(* The rectangles handed to one window during one flush never overlap.  [Inv] is the
+   rectangle-set invariant of property C05 (members non-empty, pairwise separated, sorted);
+   the window layer's damage set IS the C05 model (WinRectSet.v wraps RectSetDefs.v) and every
+   operation keeps the invariant (C01_damage_inv in Properties_C01.v). *)
+Theorem C02_rects_disjoint : forall cfg hnd st tm st' tm' lg,
+  ids_unique (r_tree st') -> Inv (r_damage st) ->
+  win_flush cfg hnd st tm = (st', tm', lg) ->
+  forall i j id r1 r2, i <> j ->
+    nth_error lg i = Some (id, r1) -> nth_error lg j = Some (id, r2) -> disjoint2 r1 r2.
+Proof. exact (@WinC02Disjoint.flush_log_rects_disjoint). Qed.
+Print Assumptions C02_rects_disjoint.
+
+(* the damage rectangles a flush works through are pairwise disjoint (discharges the
+   hypothesis of C02_exact / C02_lines) *)
+Theorem C02_damage_disjoint : forall cfg st,
+  Inv (r_damage st) -> pairwise_disjoint (flush_rects cfg (after_queue st)).
+Proof. exact (@WinC02Disjoint.flush_damage_disjoint). Qed.
+Print Assumptions C02_damage_disjoint.
+
+(* the purely structural form: for any pairwise disjoint list of rectangles *)
+Theorem C02_rects_disjoint_lists : forall tree rects,
   ids_unique tree -> pairwise_disjoint rects ->
   forall i j id r1 r2, i <> j ->
     nth_error (flush_log tree rects) i = Some (id, r1) ->
     nth_error (flush_log tree rects) j = Some (id, r2) ->
     disjoint2 r1 r2.
 Proof. exact flush_log_disjoint. Qed.
-Print Assumptions C02_rects_disjoint_partial.
+Print Assumptions C02_rects_disjoint_lists.
+
+(* EXACT FORM.  What a flush does to the screen, for arbitrary drawing programs (text, erase,
+   characters, LINES, erase-rectangle, skip, clear) and pairwise disjoint damage rectangles
+   (the rectangle-set invariant of C05): a cell inside (damage /\ screen) ends up with what its
+   OWNER's own program, run on an empty cell at the cell's position relative to the owner
+   (prog_cell_in), leaves there -- nothing if the program does not touch it or skips it
+   last; every other cell keeps its content.  In particular line segments accumulate within
+   the owner's program only (C02_lines: the line bits of a cell are those of the owner's own
+   line ops after its last non-line op there): a masked cell's line mask is never changed by
+   another window. *)
+Theorem C02_exact : forall app progs, forall cfg st tm st' tm' lg,
+    win_flush cfg (prog_handler app progs) st tm = (st', tm', lg) ->
+    pairwise_disjoint (flush_rects cfg (after_queue st)) ->
+    forall q,
+      t_grid tm' q =
+      if r_later st && r_nexp (after_queue st) &&
+         cell_inb (root_selfrect st') q && in_any (flush_rects cfg (after_queue st)) q
+      then match content (let '(w, pw) := owner_rel (r_tree st') q in
+                          prog_cell_in app (progs w) w (lines (root_selfrect st')) (cols (root_selfrect st')) pw None) with
+           | Some c => c
+           | None => t_grid tm q
+           end
+      else t_grid tm q.
+Proof. exact (@WinC02Exact.win_flush_exact). Qed.
+Print Assumptions C02_exact.
+
+Theorem C02_lines : forall app progs, app_no_lines app -> forall cfg st tm st' tm' lg,
+    win_flush cfg (prog_handler app progs) st tm = (st', tm', lg) ->
+    pairwise_disjoint (flush_rects cfg (after_queue st)) ->
+    forall q,
+      r_later st && r_nexp (after_queue st) &&
+      cell_inb (root_selfrect st') q && in_any (flush_rects cfg (after_queue st)) q = true ->
+      let '(w, pw) := owner_rel (r_tree st') q in
+      let L := lines (root_selfrect st') in
+      let C := cols (root_selfrect st') in
+      match cell_after app (progs w) w (unit_rect pw) L C pw with
+      | Some c =>
+        t_grid tm' q = c /\
+        (is_line c = true ->
+         c = LINEBASE + tail_bits app (progs w) w (unit_rect pw) L C pw 0 /\
+         Z.land (c - LINEBASE) (Z.lnot (own_bits app (progs w) w (unit_rect pw) L C pw)) = 0)
+      | None => t_grid tm' q = t_grid tm q
+      end.
+Proof. exact (@WinC02Exact.win_flush_lines). Qed.
+Print Assumptions C02_lines.
+
 
 Example C02_nonvacuous :
   exists st tm, let '(_, tm', lg) := win_flush no_defects (prog_handler app_base (fun _ => [DText (-1) (-2) 9; DPaint])) st tm in
